@@ -7,6 +7,7 @@ import (
 	"os/exec"
 	"path/filepath"
 	"sort"
+	"strconv"
 	"strings"
 	"time"
 )
@@ -111,6 +112,7 @@ func main() {
 		os.Stdout.Write(b)
 	case "funcs": // dev helper: the functions and methods of the current tree, all four configurations (baseline/funcs.json)
 		set := map[string][]string{}
+		set2 := map[string]int{}
 		for _, cfg := range []string{"linux/amd64", "windows/amd64", "darwin/amd64", "linux/386"} {
 			parts := strings.Split(cfg, "/")
 			p, err := loadProgram(parts[0], parts[1])
@@ -122,7 +124,17 @@ func main() {
 				if n := topName(f); n != "" {
 					set[n] = paramSig(f)
 				}
+				if n := fullName(f); n != "" {
+					if k := len(f.AnonFuncs); k > set2[n] {
+						set2[n] = k
+					} else if _, ok := set2[n]; !ok {
+						set2[n] = k
+					}
+				}
 			}
+		}
+		for n, k := range set2 {
+			set["#anon:"+n] = []string{strconv.Itoa(k)}
 		}
 		b, _ := json.MarshalIndent(set, "", " ")
 		os.Stdout.Write(b)
